@@ -880,6 +880,45 @@ func (fr *frame) vspecIntrinsic(x *ssa.Call, name string, fn *ssa.Function, args
 			return f.Forall([]*Term{i}, f.Implies(rng, body), indexPatterns(body, i)...), true
 		}
 		return f.Exists([]*Term{i}, f.And(rng, body)), true
+	case "ForallStr":
+		var cfn *ssa.Function
+		var binds []Value
+		switch cl := args[0].(type) {
+		case *Closure:
+			cfn, binds = cl.Fn, cl.Bindings
+		case *FuncVal:
+			cfn = cl.Fn
+		default:
+			c.unsupported("quantifier body is not a function literal at %s", pos)
+			return f.Fresh("q", SBool), true
+		}
+		var sv *Term
+		switch c.oldMode {
+		case 1:
+			sv = f.BoundVar("s", SB)
+			c.oldBinders[x] = sv
+		case 2:
+			sv = c.oldBinders[x]
+		}
+		if sv == nil {
+			sv = f.BoundVar("s", SB)
+		}
+		tmp := st.clone()
+		tmp.P = f.True()
+		c.ghost++
+		c.inQuant++
+		res, out := c.exec(cfn, []Value{sv}, binds, tmp)
+		c.inQuant--
+		c.ghost--
+		body, ok := res.(*Term)
+		if !ok || out == nil {
+			c.unsupported("quantifier body did not evaluate at %s", pos)
+			return f.Fresh("q", SBool), true
+		}
+		if lp := out.localP(f); lp.op != "true" {
+			c.assume(st, f.Forall([]*Term{sv}, lp))
+		}
+		return f.Forall([]*Term{sv}, body, indexPatterns(body, sv)...), true
 	case "Fresh":
 		switch v := args[0].(type) {
 		case *Term:
